@@ -127,7 +127,7 @@ class SNAXXDMAAccelerator(
         result: Sequence[tuple[Sequence[Operation], SSAValue]] = []
 
         do_broadcast = [False] * len(self.streamer_config.data.streamers)
-        is_zero_pattern = False
+        zero_patterns = [False] * len(self.streamer_config.data.streamers)
 
         for operand, streamer in enumerate(self.streamer_config.data.streamers):
             # streamer must generate zero pattern if the stream is coming from c0
@@ -145,8 +145,11 @@ class SNAXXDMAAccelerator(
             else:
                 result.append(([], op.operands[operand]))
             result.append(([c0 := arith.ConstantOp.from_int_and_width(0, i32)], c0.result))
+            zero_patterns[operand] = is_zero_pattern
 
         for operand, streamer in enumerate(self.streamer_config.data.streamers):
+            # the masks below belong to this operand, not to the last one of the loop above
+            is_zero_pattern = zero_patterns[operand]
             # spatial strides
             for dim, flag in enumerate(streamer.spatial_dims):
                 stride = op.stride_patterns.data[operand].spatial_strides.data[dim].data
